@@ -370,7 +370,7 @@ def gen_build(rng, sc, lr_fail_bias=False):
 def gen_run(rng, tier):
     sc = pool.make_scenario(
         rng, ["expr", "expr", "stmt", "stmt", "nullable", "lexamb", "dyn", "dyn", "rec",
-              "rec", "amb", "random"])
+              "rec", "amb", "random", "unprod"])
     nver = len(sc["texts"])
     va = rng.randrange(nver)
     vb = va if rng.random() < 0.5 else rng.randrange(nver)
